@@ -264,6 +264,10 @@ func (t *Dense) SliceInto(view *Dense, slices ...Slice) (retVal View, err error)
 
 	if t.IsMasked() {
 		view.mask = t.mask[ndStart:ndEnd]
+	} else {
+		// all of the view's metadata is overridden: it must not keep the mask of its previous life
+		// (which other tensors may still share)
+		view.mask = nil
 	}
 
 	return view, err
